@@ -684,6 +684,12 @@ class FileCache(ProxyValue):
 
     base_path = "."
 
+    def get_hash(self, data: Optional[bytes] = None) -> str:
+        # `data` passed by a backend is the output of `serialize()`, which for a FileCache is the
+        # name of the cache file and not the value's bytes. Always hash the value itself, so that
+        # the hash does not depend on `base_path` or on whether `data` was supplied.
+        return super().get_hash()
+
     def _serialize(self) -> bytes:
         # User defined serialization.
         return pickle_dumps(self.instance)
